@@ -112,6 +112,10 @@ func (ts *TimestampTZ) UnmarshalJSON(data []byte) error {
 	}
 
 	tim, err := time.Parse(format, str)
+	if err == nil && !offsetInRange(str) {
+		// time.Parse lets zone hours up to 24 and minutes up to 60 through.
+		err = ErrSQLType
+	}
 	if err != nil {
 		return fmt.Errorf("%w: Cannot parse %s as %q", ErrSQLType, data, format)
 	}
